@@ -29,7 +29,7 @@ CASE_TIMEOUT = {"quick": 900, "thorough": 3000}
 PARAMS = {
     "quick": {
         "flory_schulz": [(0.3,), (0.1,), (0.05,)],
-        "schulz_zimm": [(150.0, 120.0), (600.0, 450.0)],
+        "schulz_zimm": [(150.0, 120.0), (600.0, 450.0), (90.0, 60.0), (1500.0, 1000.0)],
         "gauss": [(100.0, 20.0), (1500.0, 50.0)],
         "uniform": [(12, 72), (500, 600)],
         "log_normal": [(50.0, 1.1), (300.0, 1.5)],
